@@ -67,6 +67,25 @@ Definition res_eqb (a b : @result Q) :=
   zlist_eqb (res_qual a) (res_qual b) && flist_eqb (res_commits a) (res_commits b)
   && (res_idx a =? res_idx b) && zeqb (res_share a) (res_share b).
 
+(* DistKeyGenerator.sign hashes the bundle it signs, and DealBundle.Hash /
+   ResponseBundle.Hash / JustificationBundle.Hash sort the entries IN PLACE by
+   index (sort.SliceStable): what Deals / ProcessDeals / ProcessResponses return
+   is the bundle the model builds (entries in node-list order) sorted by share
+   index / dealer index / share index.  The runner applies that step to the
+   model's output before comparing. *)
+Fixpoint insert_key {A} (key : A -> Z) (e : A) (l : list A) : list A :=
+  match l with
+  | [] => [e]
+  | x :: r => if key e <? key x then e :: l else x :: insert_key key e r
+  end.
+Definition sort_key {A} (key : A -> Z) (l : list A) : list A := fold_right (insert_key key) [] l.
+Definition signed_db (b : @deal_bundle Q) : @deal_bundle Q :=
+  mkdb (db_dealer b) (sort_key dl_idx (db_deals b)) (db_pub b) (db_sid b).
+Definition signed_rb (b : resp_bundle) : resp_bundle :=
+  mkrb (rb_holder b) (sort_key r_dealer (rb_resps b)) (rb_sid b).
+Definition signed_jb (b : @just_bundle Q) : @just_bundle Q :=
+  mkjb (jb_dealer b) (sort_key j_idx (jb_justifs b)) (jb_sid b).
+
 Definition err_code (e : err) : Z :=
   match e with ENone => 0 | EPhase => 1 | EEvicted => 2 | EOther => 3 end.
 
@@ -87,18 +106,18 @@ Definition do_call (c : @cfg Q) (s : @st Q) (k : call) : @st Q * bool :=
   match k with
   | KDeals obs =>
       match deals Q c s with
-      | Some (s', b) => (s', opt_eqb db_eqb (Some b) obs)
+      | Some (s', b) => (s', opt_eqb db_eqb (Some (signed_db b)) obs)
       | None => (s, match obs with None => true | _ => false end)
       end
   | KProcDeals bs failed obs =>
       match process_deals Q c s bs with
-      | Some (s', r) => (s', negb failed && opt_eqb rb_eqb r obs)
+      | Some (s', r) => (s', negb failed && opt_eqb rb_eqb (option_map signed_rb r) obs)
       | None => (s, failed)
       end
   | KProcResps bs e res jb =>
       let o := process_responses Q c s bs in
       (ro_st o, (err_code (ro_err o) =? e)
-                && (negb (e =? 0) || (opt_eqb res_eqb (ro_res o) res && opt_eqb jb_eqb (ro_just o) jb)))
+                && (negb (e =? 0) || (opt_eqb res_eqb (ro_res o) res && opt_eqb jb_eqb (option_map signed_jb (ro_just o)) jb)))
   | KProcJusts bs e res =>
       let o := process_justifs Q c s bs in
       (jo_st o, (err_code (jo_err o) =? e) && (negb (e =? 0) || opt_eqb res_eqb (jo_res o) res))
